@@ -89,13 +89,16 @@ class Ctx:
         self.gecs = cr["gecs"]
         self.macros = cr["gecs_macros"]
         self.spec = cr["specimen"]
+        self.spec_error = None
+        if self.spec is None:
+            self.spec_error = open(os.path.join(facts_dir, "specimen.error")).read()
         self.features = self.gecs.features
         self.debug = bool(self.gecs.debug_assertions)
         self.ex = Executor(self.gecs, debug="skip")
         self.ex_keep = Executor(self.gecs, debug="keep")
-        self.mex = Executor(self.spec.mono, debug="skip") if self.spec.mono else None
+        self.mex = Executor(self.spec.mono, debug="skip") if (self.spec is not None and self.spec.mono) else None
         self.macex = Executor(self.macros, debug="skip")
-        self.specex = Executor(self.spec, debug="skip")
+        self.specex = Executor(self.spec, debug="skip") if self.spec is not None else None
         self._paths = {}
         self._storages = None
 
